@@ -201,10 +201,18 @@ def _c04_battery(maxlen=4):
                     bad.append(f"STRING {lit!r} followed by further strings parsed as {got!r}, written {[s, s, 'z']!r}")
             if len(bad) > 3:
                 return n, bad
-    for rule, texts in (("INT", ["0", "7", "-12", "+5", "00012", "123456789012345678901234567890"]),
-                        ("NUMBER", ["0", "-12", "42", "1.5", "-0.25", "1e3", "2.5E-3", ".5", "3."]),
-                        ("FLOAT", ["1.5", "-0.25", "1e3", ".5", "3.", "10"]),
-                        ("STRICTFLOAT", ["1.5", "-0.25", "1e3", ".5", "3."]),
+    # every literal form: sign x mantissa shape x exponent shape (both letter cases, both exponent signs)
+    signs = ("", "+", "-")
+    ints = ("0", "7", "12", "00012", "123456789012345678901234567890")
+    dotted = ("1.5", "0.25", "3.", ".5", "00.25", "10.0")
+    exps = ("e3", "E3", "e+2", "E+2", "e-2", "E-2", "e0", "E00")
+    int_texts = [sg + m for sg in signs for m in ints]
+    float_texts = [sg + m + ex for sg in signs for m in dotted for ex in ("",) + exps] \
+        + [sg + m + ex for sg in signs for m in ints[:4] for ex in exps]
+    for rule, texts in (("INT", int_texts),
+                        ("NUMBER", int_texts + float_texts),
+                        ("FLOAT", float_texts + ["10"]),
+                        ("STRICTFLOAT", float_texts),
                         ("BOOL", ["true", "True", "false", "False", "0", "1"])):
         mmr = metamodel_from_str(f"Model: v+={rule};")
         for t in texts:
@@ -231,7 +239,8 @@ def basetype_regex_battery(tier, seed):
     res = {"name": "lang.basetype-regexes.battery", "backend": "native run of the real parser (bounded stand-in)",
            "obligations": 0, "discharged": 0, "bounded": True,
            "bound": "every string up to length 3 (thorough: 4) over 8 symbols as STRING literal in both quotes, "
-                    "followed by further strings; 32 numeric / boolean literals through INT, NUMBER, FLOAT, STRICTFLOAT, BOOL",
+                    "followed by further strings; the grid sign x mantissa shape (5 integer, 6 dotted) x exponent shape (none, e/E, "
+                    "signed and unsigned) through INT, NUMBER, FLOAT, STRICTFLOAT, and all BOOL spellings",
            "cases": n, "violations": [], "detail": "literal text parses back to the written value"}
     if bad:
         res["violations"].append({"unit": "lang.basetype-regexes.battery", "kind": "BOUNDED",
